@@ -20,7 +20,7 @@ for pid in props:
         "engine": "lean4-model+correspondence",
         "level_claimed": {"category": "proof", "text": e["text"], "design_ref": e.get("design_ref", "DESIGN.md §7 " + pid)},
         "level_note": e["note"],
-        "technique": e.get("technique", "Lean 4 theorems about a hand-written model; model tied to the code by differential (correspondence) runs"),
+        "technique": e.get("technique", "Lean 4 theorems about a hand-written model; model tied to the code on every run by differential (correspondence) runs of the model's executable Float reading against the library, and by translators that regenerate the constants, the closed-form formulas and the branching helpers from the current source text (tie theorems re-checked)"),
     })
 na = [{"property_id": pid, "reason": NOT_APPLICABLE.get(pid, "not claimed yet: model/theorems for this property are still being built (work in progress, see DESIGN.md §10)")}
       for pid in props if pid not in ENTRIES]
